@@ -326,6 +326,12 @@ Definition keeps (h : heap) (vs : list sbuf) (ex : nat -> N) (i : nat) (r : heap
   others_same h (fst r) vs i /\ pinned_same h (fst r) (sstore (nth i vs sb0)) /\
   (length h <= length (fst r))%nat.
 
+Lemma keeps_intro h vs ex i h' s' :
+  Inv h' (upd vs i s') ex -> content h' s' = content h (nth i vs sb0) ->
+  others_same h h' vs i -> pinned_same h h' (sstore (nth i vs sb0)) -> (length h <= length h')%nat ->
+  keeps h vs ex i (h', s').
+Proof. unfold keeps; cbn [fst snd]; auto. Qed.
+
 Lemma upd_same {A} (l : list A) i d : upd l i (nth i l d) = l.
 Proof.
   revert i; induction l as [|x l IH]; intros [|i]; cbn [upd nth]; auto. now rewrite IH.
@@ -333,9 +339,9 @@ Qed.
 
 Lemma keeps_refl h vs ex i : Inv h vs ex -> keeps h vs ex i (h, nth i vs sb0).
 Proof.
-  intros I. unfold keeps; cbn [fst snd]. rewrite upd_same. repeat split; auto.
-  - intros j _ _. reflexivity.
-  - intros k _ _. reflexivity.
+  intros I. unfold keeps; cbn [fst snd]. rewrite upd_same.
+  split; [assumption|]. split; [reflexivity|]. split; [intros j _ _; reflexivity|].
+  split; [intros k _ _; reflexivity|lia].
 Qed.
 
 Lemma keeps_trans h vs ex i r1 r2 : (i < length vs)%nat ->
@@ -347,8 +353,7 @@ Lemma keeps_trans h vs ex i r1 r2 : (i < length vs)%nat ->
 Proof.
   intros Hi (A1 & A2 & A3 & A4 & A5) (B1 & B2 & B3 & B4 & B5) Hst Hbl.
   rewrite upd_upd in B1. rewrite nth_upd, Nat.eqb_refl in B2, B4 by assumption.
-  unfold keeps. repeat split; auto.
-  - congruence.
+  unfold keeps. split; [exact B1|]. split; [congruence|]. split; [|split].
   - intros j Hj Hn. specialize (B3 j). rewrite length_upd, nth_upd in B3 by assumption.
     destruct (Nat.eqb_spec j i); [contradiction|]. rewrite B3 by assumption. auto.
   - intros k Hk Hp. rewrite B4; [apply A4; assumption|lia|].
@@ -376,7 +381,7 @@ Lemma mb_append_ok h id p n h' : mb_append h id p n = Ok h' ->
   (0 < n /\ n <= bcap (getb h id) - bsize (getb h id) /\ lenN (read_src h p n) = n /\
    h' = set_data h id (bdata (getb h id) ++ read_src h p n)).
 Proof.
-  unfold mb_append, mb_willFit, mb_spaceSize. destruct (n =? 0) eqn:E0; [intros [= <-]; left; lia|].
+  unfold mb_append, mb_willFit, mb_spaceSize. destruct (n =? 0) eqn:E0; [intros [= <-]; left; split; [lia|reflexivity]|].
   destruct (n <=? _) eqn:E1; cbn [negb]; [|discriminate].
   destruct (lenN (read_src h p n) <? n) eqn:E2; [discriminate|]. intros [= <-]. right.
   assert (lenN (read_src h p n) <= n).
@@ -420,10 +425,11 @@ Proof.
       { apply (Inv_ext _ _ (exsub (exadd ex nid) nid)).
         - intros k. unfold exsub, exadd. lia.
         - apply Inv_unlock; [assumption|lia|]. unfold exadd. rewrite dl_eq by reflexivity. lia. }
-      unfold keeps; cbn [fst snd]. subst s. rewrite upd_same.
+      subst s.
       assert (G3 : forall k, (k < nid)%nat -> getb (unlock h2 nid) k = getb h k).
       { intros k Hk. rewrite getb_unlock by lia. destruct (Nat.eqb_spec k nid); [lia|]. apply G2. assumption. }
-      repeat split; auto.
+      apply keeps_intro.
+      - rewrite upd_same. assumption.
       - apply content_other_blob. rewrite G3 by assumption. reflexivity.
       - intros j Hj _. apply content_other_blob. destruct (inv_wf _ _ _ I j Hj) as [Wj _]. rewrite G3 by assumption. reflexivity.
       - intros k Hk _. rewrite G3 by assumption. reflexivity.
@@ -474,7 +480,8 @@ Proof.
   assert (G5n : getb (unlock h3 (sstore s)) nid = getb h3 nid).
   { rewrite getb_unlock by lia. destruct (Nat.eqb_spec nid (sstore s)); [lia|reflexivity]. }
   split.
-  - unfold keeps; cbn [fst snd]. repeat split; auto.
+  - apply keeps_intro.
+    + assumption.
     + rewrite content_window. cbn [sstore soff slen s']. rewrite G5n, G3n. cbn [bdata].
       rewrite window_whole by assumption. subst s. reflexivity.
     + intros j Hj Hn. apply content_other_blob. destruct (inv_wf _ _ _ I j Hj) as [Wj _].
@@ -487,8 +494,166 @@ Proof.
     + rewrite length_unlock. lia.
   - intros _. repeat split; cbn [sstore soff slen s']; auto.
     + unfold tail. cbn [sstore soff slen s']. rewrite G5n, G3n. unfold bsize; cbn [bdata]. lia.
-    + intros j Hj Hn. destruct (inv_wf _ _ _ I j Hj) as [Wj _]. unfold nid. lia.
+    + intros j Hj Hn. destruct (inv_wf _ _ _ I j Hj) as [Wj _]. unfold s', nid; cbn [sstore]. lia.
     + lia.
     + rewrite G5n, G3n. reflexivity.
 Qed.
 End Methods.
+
+Section Methods2.
+Variable alloc_cap : N -> N.
+
+(* in-place change of this's blob together with this's own fields *)
+Lemma Inv_set_data_upd h vs ex i s' d : Inv h vs ex -> (i < length vs)%nat ->
+  sstore s' = sstore (nth i vs sb0) -> lenN d <= bcap (getb h (sstore s')) ->
+  soff s' + slen s' <= lenN d ->
+  (forall j, (j < length vs)%nat -> j <> i -> sstore (nth j vs sb0) = sstore s' ->
+             soff (nth j vs sb0) + slen (nth j vs sb0) <= lenN d) ->
+  Inv (set_data h (sstore s') d) (upd vs i s') ex.
+Proof.
+  intros I Hi Es Hc Hs' Ho. pose proof I as [I1 I2 I3 I4].
+  destruct (I3 i Hi) as [Wi _]. rewrite <- Es in Wi.
+  constructor.
+  - intros k Hk. rewrite length_set_data in Hk. rewrite getb_set_data by assumption.
+    pose proof (refs_upd vs i s' k Hi) as R. rewrite <- Es in R.
+    destruct (Nat.eqb_spec k (sstore s')) as [->|]; cbn [blocks]; rewrite I1 by assumption; lia.
+  - intros k Hk. rewrite length_set_data in Hk. auto.
+  - intros j Hj. rewrite length_upd in Hj. rewrite nth_upd by assumption.
+    destruct (Nat.eqb_spec j i) as [->|Hn].
+    + split; [rewrite length_set_data; assumption|]. rewrite getb_set_data by assumption.
+      rewrite Nat.eqb_refl. unfold bsize; cbn [bdata]. assumption.
+    + destruct (I3 j Hj) as [W1 W2]. split; [rewrite length_set_data; assumption|].
+      rewrite getb_set_data by assumption.
+      destruct (Nat.eqb_spec (sstore (nth j vs sb0)) (sstore s')) as [E|]; [|assumption].
+      unfold bsize; cbn [bdata]. auto.
+  - intros k Hk. rewrite length_set_data in Hk. rewrite getb_set_data by assumption.
+    destruct (Nat.eqb_spec k (sstore s')) as [->|]; [unfold bsize; cbn [bdata bcap]; assumption|auto].
+Qed.
+
+(* a sole owner: nobody else refers to the blob and nothing else holds it *)
+Lemma sole_owner h vs ex i : Inv h vs ex -> (i < length vs)%nat ->
+  blocks (getb h (sstore (nth i vs sb0))) = 1 ->
+  sole vs i (nth i vs sb0) /\ ex (sstore (nth i vs sb0)) = 0.
+Proof.
+  intros I Hi B. destruct (inv_wf _ _ _ I i Hi) as [W _].
+  pose proof (inv_cnt _ _ _ I _ W) as C. rewrite B in C.
+  pose proof (refs_ge1 vs i (sstore (nth i vs sb0)) Hi) as G1. rewrite dl_eq in G1 by reflexivity.
+  split; [|lia]. intros j Hj Hn E.
+  pose proof (refs_ge2 vs i j (sstore (nth i vs sb0)) Hi Hj ltac:(auto)) as G2.
+  rewrite !dl_eq in G2 by auto. lia.
+Qed.
+
+(* effect of an in-place rewrite of this's blob by its sole owner, or of an extension at the end *)
+Lemma inplace_keeps h vs ex i s' d : Inv h vs ex -> (i < length vs)%nat ->
+  sstore s' = sstore (nth i vs sb0) -> lenN d <= bcap (getb h (sstore s')) ->
+  soff s' + slen s' <= lenN d ->
+  window (soff s') (slen s') d = content h (nth i vs sb0) ->
+  (blocks (getb h (sstore s')) = 1 \/ exists x, d = bdata (getb h (sstore s')) ++ x) ->
+  (2 <= blocks (getb h (sstore s')) -> d = bdata (getb h (sstore s'))) ->
+  keeps h vs ex i (set_data h (sstore s') d, s').
+Proof.
+  intros I Hi Es Hc Hs' Hw Hd Hp.
+  destruct (inv_wf _ _ _ I i Hi) as [Wi _]. rewrite <- Es in Wi.
+  assert (Ho : forall j, (j < length vs)%nat -> j <> i -> sstore (nth j vs sb0) = sstore s' ->
+           soff (nth j vs sb0) + slen (nth j vs sb0) <= lenN d /\
+           window (soff (nth j vs sb0)) (slen (nth j vs sb0)) d = content h (nth j vs sb0)).
+  { intros j Hj Hn E. destruct Hd as [B|[x ->]].
+    - exfalso. rewrite Es in B. destruct (sole_owner h vs ex i I Hi B) as [S _].
+      apply (S j Hj Hn). congruence.
+    - destruct (inv_wf _ _ _ I j Hj) as [_ W2]. rewrite E in W2. unfold bsize in W2.
+      split; [rewrite lenN_app; lia|]. rewrite window_app by assumption. rewrite content_window, E. reflexivity. }
+  apply keeps_intro.
+  - apply Inv_set_data_upd; auto. intros j Hj Hn E. apply Ho; assumption.
+  - rewrite content_window, getb_set_data, Nat.eqb_refl by assumption. cbn [bdata]. assumption.
+  - intros j Hj Hn. rewrite (content_window (set_data _ _ _)), getb_set_data by assumption.
+    destruct (Nat.eqb_spec (sstore (nth j vs sb0)) (sstore s')) as [E|]; [|reflexivity].
+    cbn [bdata]. apply Ho; assumption.
+  - intros k Hk Hpin. rewrite getb_set_data by assumption.
+    destruct (Nat.eqb_spec k (sstore s')) as [->|]; [|reflexivity]. cbn [bdata].
+    destruct Hpin as [Hpin|Hpin]; [congruence|]. auto.
+  - rewrite length_set_data. lia.
+Qed.
+
+Definition clamp_newsize (s : sbuf) (ns0 : N) : N :=
+  if (ns0 =? npos) || (ns0 <? slen s) then slen s else ns0.
+
+Lemma cow_spec h vs ex i s ns0 r (isok : bool) : Inv h vs ex -> (i < length vs)%nat -> nth i vs sb0 = s ->
+  cow alloc_cap h s ns0 = (if isok then Ok r else Throw r) ->
+  keeps h vs ex i r /\
+  (isok = true -> tail (fst r) (snd r) /\ sole vs i (snd r) /\ slen (snd r) = slen s /\
+                  ((forall n, n <= alloc_cap n) ->
+                   clamp_newsize s ns0 - slen s <= bcap (getb (fst r) (sstore (snd r))) - bsize (getb (fst r) (sstore (snd r))))).
+Proof.
+  intros I Hi Hs. unfold cow. fold (clamp_newsize s ns0). set (ns := clamp_newsize s ns0).
+  assert (Hns : slen s <= ns).
+  { unfold ns, clamp_newsize. destruct ((ns0 =? npos) || (ns0 <? slen s)) eqn:E; lia. }
+  destruct (inv_wf _ _ _ I i Hi) as [W1 W2]. rewrite Hs in W1, W2.
+  pose proof (inv_cap _ _ _ I _ W1) as Cap.
+  destruct (blocks (getb h (sstore s)) =? 1) eqn:B.
+  2:{ (* shared: reallocate *)
+      intros E. destruct (reAlloc_spec alloc_cap h vs ex i s ns r isok I Hi Hs E) as [K X]. split; [assumption|].
+      intros ->. destruct (X eq_refl) as (T & So & L & O & _ & Mx & Cp). repeat split; auto.
+      intros A. unfold tail in T. rewrite <- T, <- Cp, O, L. specialize (A ns). lia. }
+  apply N.eqb_eq in B.
+  destruct (bsize (getb h (sstore s)) <? soff s + slen s) eqn:Esz; [lia|].
+  set (d := bdata (getb h (sstore s))) in *.
+  set (h1 := set_data h (sstore s) (takeN (soff s + slen s) d)).
+  assert (Ld : lenN (takeN (soff s + slen s) d) = soff s + slen s).
+  { rewrite lenN_takeN. unfold bsize in W2. fold d in W2. lia. }
+  assert (K1 : keeps h vs ex i (h1, s)).
+  { unfold h1. unfold bsize in Cap, W2. fold d in Cap, W2.
+    apply (inplace_keeps h vs ex i s (takeN (soff s + slen s) d) I Hi).
+    - now rewrite Hs.
+    - lia.
+    - lia.
+    - rewrite window_take, Hs. reflexivity.
+    - left; assumption.
+    - intros; lia. }
+  assert (G1 : getb h1 (sstore s) = mkBlob (takeN (soff s + slen s) d) (bcap (getb h (sstore s))) 1).
+  { unfold h1. rewrite getb_set_data, Nat.eqb_refl, B by assumption. reflexivity. }
+  destruct (sole_owner h vs ex i I Hi ltac:(rewrite Hs; assumption)) as [So _]. rewrite Hs in So.
+  destruct (ns - slen s <=? bcap (getb h (sstore s)) - (soff s + slen s)) eqn:Efit.
+  { destruct isok; [|discriminate]. intros [= <-]. split; [assumption|]. intros _. cbn [fst snd].
+    repeat split; auto.
+    - unfold tail. rewrite G1. unfold bsize; cbn [bdata]. lia.
+    - intros _. rewrite G1. unfold bsize; cbn [bdata bcap]. lia. }
+  destruct (ns - slen s <=? bcap (getb h (sstore s)) - (soff s + slen s) + soff s) eqn:Eshift.
+  { destruct isok; [|discriminate]. intros [= <-]. cbn [fst snd].
+    rewrite G1. cbn [bdata].
+    set (s' := mkSBuf (sstore s) 0 (slen s)).
+    assert (L1 : length h1 = length h) by (unfold h1; apply length_set_data).
+    pose proof K1 as (J1 & J2 & J3 & J4 & J5). cbn [fst snd] in J1, J2, J3, J4, J5. rewrite <- Hs, upd_same in J1.
+    assert (Ldd : lenN (dropN (soff s) (takeN (soff s + slen s) d)) = slen s) by (rewrite lenN_dropN, Ld; lia).
+    assert (K2 : keeps h1 vs ex i (set_data h1 (sstore s') (dropN (soff s) (takeN (soff s + slen s) d)), s')).
+    { unfold bsize in Cap, W2. fold d in Cap, W2.
+      apply (inplace_keeps h1 vs ex i s' _ J1 Hi); cbn [sstore soff slen s']; rewrite ?G1; cbn [bcap blocks bdata].
+      - now rewrite Hs.
+      - lia.
+      - lia.
+      - rewrite window_drop, Hs, content_window, G1. reflexivity.
+      - left; reflexivity.
+      - intros; lia. }
+    split.
+    - cbn [sstore s'] in K2. eapply (keeps_trans h vs ex i (h1, s)); cbn [fst snd]; auto.
+      + exact K1.
+      + rewrite <- Hs, upd_same. exact K2.
+      + left. now rewrite Hs.
+      + intros k Hk Hb ->. rewrite Hs in Hb. lia.
+    - intros _. repeat split; auto.
+      + unfold tail. cbn [sstore soff slen s']. rewrite getb_set_data, Nat.eqb_refl by lia.
+        unfold bsize; cbn [bdata]. lia.
+      + intros _. cbn [sstore s']. rewrite getb_set_data, Nat.eqb_refl by lia.
+        unfold bsize; cbn [bdata bcap]. rewrite G1; cbn [bcap]. lia. }
+  (* reallocate after syncing *)
+  intros E.
+  pose proof K1 as (J1 & J2 & J3 & J4 & J5). cbn [fst snd] in J1, J2, J3, J4, J5. rewrite <- Hs, upd_same in J1.
+  destruct (reAlloc_spec alloc_cap h1 vs ex i s ns r isok J1 Hi Hs E) as [K X]. split.
+  - eapply (keeps_trans h vs ex i (h1, s)); cbn [fst snd]; auto.
+    + exact K1.
+    + rewrite <- Hs, upd_same. exact K.
+    + left. now rewrite Hs.
+    + intros k Hk Hb ->. rewrite Hs in Hb. lia.
+  - intros ->. destruct (X eq_refl) as (T & So' & L & O & _ & Mx & Cp). repeat split; auto.
+    intros A. unfold tail in T. rewrite <- T, <- Cp, O, L. specialize (A ns). lia.
+Qed.
+End Methods2.
